@@ -93,7 +93,16 @@ func checkC03(c *Ctx) {
 			fixed.Trash = "4"
 			fixed.Passes = "2"
 		}
-		cp := genCFProg(subRand(c.Seed, "c03cf", c.Tier, i), 6, cfExclude, nil, i%2 == 1, fixed)
+		// Only the first batch of function kinds: with the round-4 kinds (gen_cf2.go) one program was not
+		// reproducible on the unchanged tree (seed 1, ctrlflow0, K8, axis -p=1) and the kind responsible
+		// has not been isolated yet (DESIGN.md section 5, open observations); C11 judges those kinds.
+		var firstBatch []string
+		for _, k := range cfKinds() {
+			if !cfExclude[k.feature] {
+				firstBatch = append(firstBatch, k.name)
+			}
+		}
+		cp := genCFProgPick(subRand(c.Seed, "c03cf", c.Tier, i), 6, cfExclude, firstBatch, i%2 == 1, fixed)
 		cfgs := []Config{K8}
 		if !c.Quick() {
 			cfgs = []Config{K8, K8u, K9}
